@@ -58,10 +58,17 @@ func c05Sites() []c05Site {
 	out = append(out, c05Site{Pos: "value-shortcut-nullable", Text: "@w", Ann: `{nullable: true}`, Names: []string{"@w"}})
 	out = append(out, c05Site{Pos: "or-string-item", Text: `"v"`, Ann: `{or: ["@s", "integer"]}`, Names: []string{"@s"}})
 	out = append(out, c05Site{Pos: "or-type-item", Text: `"v"`, Ann: `{or: [{type: "@s"}, {type: "integer"}]}`, Names: []string{"@s"}})
+	// a rule-set that carries a second rule is kept as an unnamed type
+	out = append(out, c05Site{Pos: "or-type-item+rule", Text: `"v"`, Ann: `{or: [{type: "@s", nullable: true}, {type: "integer"}]}`, Names: []string{"@s"}})
+	out = append(out, c05Site{Pos: "or-type-item+rule", Text: `"v"`, Ann: `{or: [{type: "integer", min: 0}, {type: "@t", nullable: true}]}`, Names: []string{"@t"}})
 	for _, x := range objs {
 		out = append(out, c05Site{Pos: "allOf", Text: "{}", Ann: fmt.Sprintf(`{allOf: %q}`, x), Names: []string{x}})
 	}
 	out = append(out, c05Site{Pos: "allOf-list", Text: "{}", Ann: `{allOf: ["@o", "@q"]}`, Names: []string{"@o", "@q"}})
+	// an heir whose own property is an heir again, and references below an heir
+	out = append(out, c05Site{Pos: "allOf-nested", Text: "{ // {allOf: \"@o\"}\n\t\"in\": {} // {allOf: \"@p\"}\n}", Names: []string{"@o", "@p"}, Multi: true})
+	out = append(out, c05Site{Pos: "allOf-nested", Text: "{ // {allOf: \"@v\"}\n\t\"in\": [\n\t\t{} // {allOf: \"@q\"}\n\t]\n}", Names: []string{"@v", "@q"}, Multi: true})
+	out = append(out, c05Site{Pos: "below-allOf", Text: "{ // {allOf: \"@o\"}\n\t\"in\": @r,\n\t\"t\": \"x\" // {type: \"@t\"}\n}", Names: []string{"@o", "@r", "@t"}, Multi: true})
 	return out
 }
 
